@@ -342,4 +342,11 @@ theorem swapHi_word (t : Array W) (n' i' j' : Nat) (hji : j' < i') (hsz : t.size
     simp only [Bool.not_false, Bool.not_true, Bool.and_false, Bool.false_and, Bool.false_eq_true, false_and, if_false]
     rw [if_neg hnot]
 
+theorem swapInplace_comm' (t : Array W) (i j : Nat) : swapInplace t i j = swapInplace t j i := by
+  unfold swapInplace
+  by_cases h : i = j
+  · subst h; rfl
+  · have h' : ¬ j = i := fun e => h e.symm
+    simp only [h, h', if_false, Nat.max_comm i j, Nat.min_comm i j]
+
 end VoluteModel
